@@ -6,6 +6,7 @@
 import Masscanned.Model.Net
 import Masscanned.Spec.Judge
 import Masscanned.Spec.LogGrammar
+import Masscanned.Spec.JudgeApp
 open Masscanned
 
 def parseIp (s : String) : Option Ip :=
@@ -219,10 +220,38 @@ def judgeLog (line : String) : Option String :=
       else some (showVerdict (Spec.judgeC20 f ro (es.filterMap id)))
   | _ => none
 
+def judgeApp (prop : String) (line : String) : Option String :=
+  let toks := (line.trimAscii.toString.splitOn " ").filter (· ≠ "")
+  match toks with
+  | ["A", tr, src, dst, sp, dp, _ck, h, r, pa] =>
+    match parseIp src, parseIp dst, unhex h with
+    | some s, some d, some pl =>
+      if r.startsWith "PANIC" then some "V skip 0 panic" else
+      let o : Spec.AppObs := { tcp := tr == "tcp", src := s, dst := d, sport := sp.toNat?.getD 0, dport := dp.toNat?.getD 0,
+                               payload := pl, reply := if r == "-" then none else unhex r, portAfter := pa.toNat?.getD 0 }
+      let v := match prop with
+        | "C10" => Spec.judgeC10 o
+        | "C13" => Spec.judgeC13 o
+        | "C14" => Spec.judgeC14 o
+        | "C15" => Spec.judgeC15 o
+        | "C16" => Spec.judgeC16 o
+        | "C17" => Spec.judgeC17 o
+        | "C18" => Spec.judgeC18 o
+        | _ => Spec.pass false
+      some (showVerdict v)
+    | _, _, _ => some "V skip 0 bad-op"
+  | ["M", dg, h, id] =>
+    match unhex h with
+    | some s => some (showVerdict (Spec.judgeC10m (dg == "1") s (if id == "none" then none else id.toNat?)))
+    | none => some "V skip 0 bad-op"
+  | _ => none
+
 partial def judgeLoop (prop : String) (h : IO.FS.Stream) (out : IO.FS.Stream) (s : JD) : IO Unit := do
   let line ← h.getLine
   if line.isEmpty then return ()
-  let (s', o) := if line.startsWith "L " then (s, judgeLog line) else judgeOp prop s line
+  let (s', o) := if line.startsWith "L " then (s, judgeLog line)
+                 else if line.startsWith "A " ∨ line.startsWith "M " then (s, judgeApp prop line)
+                 else judgeOp prop s line
   match o with
   | some l => out.putStrLn l
   | none => pure ()
